@@ -203,8 +203,13 @@ func (sc *context) process(value px.Value, doer px.Doer) {
 	if ref, ok := sc.values[value]; ok {
 		sc.consumer.AddRef(ref)
 	} else {
-		sc.values[value] = sc.refIndex
+		pos := sc.refIndex
 		doer()
+		if sc.refIndex > pos {
+			if _, ok = sc.values[value]; !ok {
+				sc.values[value] = pos
+			}
+		}
 	}
 }
 
